@@ -1,6 +1,7 @@
 /-
 Model of the first steps of `SeriesCheck.Check` (internal/checks/promql_series.go) for one selector (property C16):
-exemptions (disable / snooze comments, the ALERTS special case), step 1 (instant probe), step 2 (was the base metric
+exemptions (disable / snooze comments), step 0 (ALERTS: only an `alertname="X"` equality matcher names an alert, and X
+must be an error-free alerting rule of the checked set that is not being removed), step 1 (instant probe), step 2 (was the base metric
 ever there: range probe, recording-rule producer, other servers, ignoreMetrics).  Everything after step 2 (labels
 never present, disappeared series, ...) is `later`: not modelled.
 -/
@@ -8,6 +9,8 @@ namespace Pint.Series
 
 structure Probe where
   isAlerts : Bool        -- metric is ALERTS / ALERTS_FOR_STATE
+  alertNamed : Bool      -- the selector has an `alertname="X"` equality matcher (fix 32bd114: `!=` names nothing)
+  alertRuleStays : Bool  -- an error-free alerting rule named X is in the checked set and is not being removed (fix 8169966)
   disabled : Bool        -- `# pint disable promql/series(...)` matches the selector
   snoozed : Bool
   instantErr : Bool      -- count(selector) failed
@@ -22,7 +25,7 @@ deriving DecidableEq, Repr, Inhabited
 
 inductive Verdict
   | none            -- no problem for this selector
-  | alerts          -- decided by the ALERTS special case
+  | unknownAlert    -- "unknown alert referenced", Bug
   | error           -- problemFromError
   | information     -- "query on nonexistent series", Information: a recording rule generates it
   | bug             -- "query on nonexistent series", Bug
@@ -32,7 +35,7 @@ deriving DecidableEq, Repr, Inhabited
 
 def verdict (p : Probe) : Verdict :=
   if p.disabled || p.snoozed then .none
-  else if p.isAlerts then .alerts
+  else if p.isAlerts then (if p.alertNamed && !p.alertRuleStays then .unknownAlert else .none)
   else if p.instantErr then .error
   else if p.instantCount > 0 then .none
   else if p.bareEmpty then .none
